@@ -13,4 +13,4 @@ def run(ctx):
         "probes, cache replays, NS/A queries, wildcard domain, -n) and real-client tunnel runs through the relay. "
         "non-trivial = scenario with >20 judged answers; distinct over (kind, qtype, downstream codec, big fragsize, "
         "wildcard, -n | negotiated settings).",
-        120, 3000, 30, 200)
+        300, 20000, 60, 400)
